@@ -26,6 +26,8 @@ rule("C17.j", "robust target: the scenario set is the set of samples - every con
               "built from the loop variable over the samples; the problem's own cost vector is not an extra scenario", floor=1)
 rule("C17.c", "original future costs and every sample are divided by the same (nS + 1)", floor=2)
 rule("C17.d", "b and cType are repeated nS + 1 times and A is the original plus nS stacked blocks", floor=3)
+rule("C17.k", "make_slp: every restriction row is repeated for every sample - the present and future parts that make up a sample block are "
+              "column splits of A only; rows are left out at most where a row has no entry on future variables (counted, not summed)", floor=2)
 rule("C17.f", "robust target: sample constraints, recomputed value and plain objective use the same sign of c", floor=3, props=["C17", "C03"])
 
 # confirmed exception (one line of reason)
@@ -52,7 +54,7 @@ def _fresh_frames(fn):
     return out
 
 
-@analysis("slp", ["C07.e", "C17.b", "C17.c", "C17.d", "C17.f", "C17.h", "C17.j"])
+@analysis("slp", ["C07.e", "C17.b", "C17.c", "C17.d", "C17.f", "C17.h", "C17.j", "C17.k"])
 def run(ctx):
     p = ctx.p
     # ================================================================= C07.e
@@ -207,6 +209,51 @@ def run(ctx):
                     (len(it.args) == 1 or au.const_num(it.args[0]) == 0)
                 ctx.ob("C17.d", slp, "row blocks of A: %s" % au.short(lp, 50).split(":")[0], rng_ok,
                        "one block of rows must be stacked per sample (range(%s)), giving 1 + %s blocks like b and cType" % (n_samples, n_samples), node=lp)
+
+    # ================================================================= C17.k all rows in every sample block
+    ff_slp = ctx.flow(slp)
+    org_slp = ctx.origins(slp)
+    for lp in [s0 for s0 in au.walk_stmts(slp.body) if isinstance(s0, ast.For)]:
+        stack = [s2 for s2 in lp.body if isinstance(s2, ast.Assign) and au.terminal(s2.targets[0]) == "A" and isinstance(s2.value, ast.Call) and au.method_name(s2.value) == "vstack"]
+        if not stack:
+            continue
+        parts = set()
+        for s2 in lp.body:
+            for x in au.walk_own(s2):
+                if isinstance(x, ast.Call) and au.method_name(x) == "hstack" and x.args and isinstance(x.args[0], (ast.Tuple, ast.List)):
+                    parts |= {(e.id, s2) for e in x.args[0].elts if isinstance(e, ast.Name)}
+        for nm, at in sorted(parts, key=lambda t: t[0]):
+            seen, todo, bad = set(), list(ff_slp.defs(nm, at)), []
+            while todo:
+                d = todo.pop()
+                if id(d) in seen:
+                    continue
+                seen.add(id(d))
+                v = d.value
+                ix = d.index[0] if isinstance(d.index, tuple) and d.index else d.index
+                if d.kind == "unpack" and isinstance(v, (ast.Tuple, ast.List)) and isinstance(ix, int) and ix < len(v.elts):
+                    v = v.elts[ix]
+                if isinstance(v, ast.Subscript):
+                    sl = v.slice
+                    row = sl.elts[0] if isinstance(sl, ast.Tuple) and sl.elts else sl
+                    full = isinstance(row, ast.Slice) and row.lower is None and row.upper is None and row.step is None
+                    if not full:
+                        how = org_slp.nodes(row, d.node)
+                        counted = any(isinstance(y, ast.Call) and au.method_name(y) in ("getnnz", "count_nonzero", "nonzero", "abs", "absolute", "__abs__") for y in how + [row]
+                                      for y in au.walk_local(y))
+                        if not counted:
+                            bad.append((d, row))
+                    if isinstance(v.value, ast.Name):
+                        todo += list(ff_slp.defs(v.value.id, d.node))
+                elif isinstance(v, ast.Name):
+                    todo += list(ff_slp.defs(v.id, d.node))
+            ctx.ob("C17.k", slp, "rows of %s in the sample blocks" % nm, not bad,
+                   "%s, a part of every sample block, is restricted to the rows %s (%s): a restriction left out of the sample blocks holds for the "
+                   "original scenario only. A selector computed from a *sum* of coefficients drops every row whose future coefficients cancel "
+                   "(a node with one contract and one outgoing transport, CHP ramp rows x_t - x_t-1): in the samples gas arrives without being "
+                   "bought, the SLP optimum exceeds the mean of the per-scenario optima" % (
+                       nm, au.short(bad[0][1], 30) if bad else "", ff_slp and p.where(bad[0][0].node) if bad else ""),
+                   node=(bad[0][0].node if bad else at), ok_detail="column split only")
 
     # ================================================================= C17.f robust epigraph sign
     opt = p.cls("OptimProblem").methods.get("optimize")
